@@ -30,6 +30,11 @@ theorem params_of_targets :
     bufferAddressOnlyVulkan = true := by
   decide
 
+/-- Tie to the source: `process_definition` / `assign_api_bindings` still have, statement by statement,
+    the shape that `Model.Slots.step` / `assign` mirror (13 regex facts over the current source). -/
+theorem alloc_shape_as_modelled :
+    allocShape = ⟨true, true, true, true, true, true, true, true, true, true, true, true, true⟩ := by decide
+
 /-- Index slots: in every group the index-bound declarations receive, in declaration order,
     consecutive ranges of exactly the required length starting at zero — no gap, no overlap —
     and they end at the group's specified total. -/
